@@ -4,6 +4,7 @@
 import ClairModel.Lib.OrderC03
 import ClairModel.Model.Matchers
 import ClairModel.Proofs.VerRpm
+import ClairModel.Proofs.VerDeb
 
 namespace ClairModel.Matchers
 open ClairModel.Order ClairModel.OrderC03 ClairModel.VerCommon
@@ -40,5 +41,43 @@ theorem vulnerableRhel_eq (g : RhelGate) (p : Pkg) (v : Vuln) :
   unfold vulnerableRhel RhelGate.pass
   cases g.vulnRepoNil <;> cases g.recRepoNil <;> cases g.keyOK <;> cases g.unbindOK <;>
     cases g.superset <;> cases g.substring <;> simp
+
+/-! ### go-deb-version matchers -/
+
+/-- When `LessThan` returns, it says whether `v1` is below `v2` in dpkg's order. -/
+theorem debLess_ok {v1 v2 : VerDeb.Version} {b : Bool} (h : debLess v1 v2 = .ok b) :
+    b = decide (VerDeb.debOrd v1 v2 = .lt) := by
+  unfold debLess at h
+  cases hc : VerDeb.compare v1 v2 with
+  | none => simp [hc] at h
+  | some o =>
+    simp only [hc, Out.ok.injEq] at h
+    rw [← VerDeb.compare_some hc, h]
+
+theorem debLess_cases (v1 v2 : VerDeb.Version) :
+    debLess v1 v2 = .hang ∨ debLess v1 v2 = .ok (decide (VerDeb.debOrd v1 v2 = .lt)) := by
+  cases hc : VerDeb.compare v1 v2 with
+  | none => left; simp [debLess, hc]
+  | some o => right; simp [debLess, hc, VerDeb.compare_some hc]
+
+theorem debLess_of_returns {v1 v2 : VerDeb.Version} (h : VerDeb.compare v1 v2 ≠ none) :
+    debLess v1 v2 = .ok (decide (VerDeb.debOrd v1 v2 = .lt)) := by
+  cases hc : VerDeb.compare v1 v2 with
+  | none => exact absurd hc h
+  | some o => simp [debLess, hc, VerDeb.compare_some hc]
+
+theorem debLess_ne_err (v1 v2 : VerDeb.Version) : debLess v1 v2 ≠ .err := by
+  unfold debLess; split <;> simp
+
+/-- Downward closure for `LessThan`, as far as it returns. -/
+theorem debLess_mono {v1 v1' v2 : VerDeb.Version} (h : debLess v1 v2 = .ok true)
+    (hle : VerDeb.debOrd v1' v1 ≠ .gt) (hr : debLess v1' v2 ≠ .hang) : debLess v1' v2 = .ok true := by
+  have hlt : VerDeb.debOrd v1 v2 = .lt := by
+    have := debLess_ok h
+    simpa using this.symm
+  have hlt' := lt_down VerDeb.debOrd_totalPre hlt hle
+  rcases debLess_cases v1' v2 with hh | hh
+  · exact absurd hh hr
+  · rw [hh, hlt']; rfl
 
 end ClairModel.Matchers
